@@ -16,6 +16,8 @@ CONSTANTS
   CloseShortcut = FALSE
   MaxConflicts = 1
   RecordScript = FALSE
+  FlushAbandon = FALSE
+  FlushResBuffered = FALSE
   NetLoss = TRUE
 
 INVARIANTS Conservation
